@@ -1056,9 +1056,18 @@ pub fn engine_growth(a: &Args) {
             let c0 = shim::counts();
             let mut s = LeanString::new();
             let mut m = 0usize;
-            for _ in 0..n {
+            let mut cut_short = false;
+            for i in 0..n {
                 s.push(ch);
                 m += ch.len_utf8();
+                // a broken growth rule makes this loop quadratic: stop as soon as the verdict is clear
+                if i % 4096 == 4095 {
+                    let dd = shim::delta(c0, shim::counts());
+                    if dd.alloc + dd.realloc > 400 {
+                        cut_short = true;
+                        break;
+                    }
+                }
             }
             let d = shim::delta(c0, shim::counts());
             let bytes = m;
@@ -1080,7 +1089,9 @@ pub fn engine_growth(a: &Args) {
             if d.bytes > 5 * bytes as u64 + 1024 {
                 bad = Some(format!("{} bytes requested in total for a {}-byte text (bound 5n+1024)", d.bytes, bytes));
             }
-            if s.len() != bytes || s.capacity() > bytes + bytes / 2 + 16 {
+            if cut_short {
+                bad = Some(format!("{} allocator requests after only {} of {n} pushes; amortised bound for the whole loop is {}", d.alloc + d.realloc, bytes / ch.len_utf8(), bound));
+            } else if s.len() != bytes || s.capacity() > bytes + bytes / 2 + 16 {
                 bad = Some(format!("after the loop len {} capacity {} for {} bytes", s.len(), s.capacity(), bytes));
             }
             rn.hit(mix(0x1212, mix(n as u64, ch as u64)), || format!("{n} pushes of {ch:?}: {} requests, {} bytes requested, final capacity {}", d.alloc + d.realloc, d.bytes, s.capacity()));
